@@ -77,12 +77,19 @@ def install():
     _hook_installed[0] = True
 
 
+_TMP = {}
+
+
 @contextlib.contextmanager
 def capture_fd1():
-    """host stdout at file-descriptor level"""
+    """host stdout at file-descriptor level (one scratch file per worker process, reused)"""
+    pid = os.getpid()
+    if _TMP.get("pid") != pid:
+        _TMP["pid"] = pid
+        _TMP["file"] = tempfile.TemporaryFile(mode="w+b")
+    tmp = _TMP["file"]
     sys.stdout.flush()
     saved = os.dup(1)
-    tmp = tempfile.TemporaryFile(mode="w+b")
     os.dup2(tmp.fileno(), 1)
     box = {}
     try:
@@ -94,18 +101,23 @@ def capture_fd1():
             pass
         os.dup2(saved, 1)
         os.close(saved)
-        tmp.seek(0)
-        box["data"] = tmp.read().decode("utf-8", "replace")
-        tmp.close()
+        size = os.lseek(tmp.fileno(), 0, os.SEEK_CUR)
+        if size:
+            os.lseek(tmp.fileno(), 0, os.SEEK_SET)
+            box["data"] = os.read(tmp.fileno(), size).decode("utf-8", "replace")
+            os.lseek(tmp.fileno(), 0, os.SEEK_SET)
+            os.ftruncate(tmp.fileno(), 0)
+        else:
+            box["data"] = ""
 
 
-def run_online(program, flags, inputs):
+def run_online(program, flags, inputs, timeout=5.0):
     install()
     del _calls[:]
     del _tainted_exec[:]
     out = {1: "", 2: ""}
     with capture_fd1() as box:
-        py_out, exc = sandbox.execute_vyxal(program, flags, inputs, online=True, out=out, timeout=5.0)
+        py_out, exc = sandbox.execute_vyxal(program, flags, inputs, online=True, out=out, timeout=timeout)
     return out, py_out, box["data"], exc, list(_calls), list(_tainted_exec)
 
 
@@ -193,7 +205,7 @@ def _ho_shard(progs_):
         for flags in ("", "j"):
             if flags == "j" and len(program) < 60 and "λ" not in program:
                 continue  # the element sweep runs with the default flags only
-            out, py_out, fd_out, exc, calls, texec = run_online(program, flags, "")
+            out, py_out, fd_out, exc, calls, texec = run_online(program, flags, "", timeout=1.5)
             part.count()
             part.nontriv()
             case = {"program": program, "tokens": [], "inputs": "", "flags": flags, "element": key}
@@ -257,7 +269,8 @@ def run(tier, seed):
     flags = ["", "j"] if quick else FLAGS
     explore.pmap(_shard, [(c, inputs_names, flags) for c in explore.chunks(programs, 128)], rep, seed)
     # odd-but-valid literal inputs with every short program that reads / evaluates / prints input
-    lit_progs = [tuple(p) for n in (1, 2) for p in itertools.product(["?", "E", "Ė", ",", "w", "…", "_"], repeat=n)]
+    lit_progs = [tuple(p) for n in (1, 2) for p in itertools.product(["?", "E", "Ė", ",", "w", "…", "_"], repeat=n)
+                 if tuple(p) != ("E", "E")]   # 2**(2**120) (bytes input b'x') is merely astronomically slow
     explore.pmap(_shard, [(c, LITERAL_INPUTS, ["", "j"]) for c in explore.chunks(lit_progs, 16)], rep, seed)
     rep.rule = ("all programs of <=%d tokens over %d symbols (3 tainted string literals, ? E † Ė : w range list lambda, every printing "
                 "element , … ₴ ¨, ¨…, an error-raising element)%s x inputs %s x flags %s through the real "
